@@ -90,6 +90,10 @@ def generate(seed: int, config: str, tier: str) -> Dict[str, Any]:
     prof = gen_json.profile(rng)
     prof["stringy"] = prof["stringy"] or rng.random() < 0.3
     docs = [gen_json.gen_document(rng, prof) for _ in range(rng.randint(1, 3))]
+    if rng.random() < 0.5:
+        # documents that differ only in a few places (what a state leak between concurrent evaluations would mix up)
+        base = docs[0]
+        docs = [base] + [_variant(rng, base) for _ in range(rng.randint(1, 3))]
     wraps = []
     for _ in docs:
         mode = rng.choice(["all", "all", "depths", "depths", "none"])
@@ -109,12 +113,15 @@ def generate(seed: int, config: str, tier: str) -> Dict[str, Any]:
     n_clients = rng.randint(1, 8 if deep else 6)
     n_jobs = rng.randint(3, 16 if deep else 10)
     clients: List[List[Dict[str, Any]]] = [[] for _ in range(n_clients)]
+    # swarm bias: in half of the runs most jobs hammer one compiled query object from several tasks
+    focus = (rng.randrange(len(queries)), rng.choice(["compiled.findall_async", "compiled.finditer_async"])) if rng.random() < 0.5 else None
     for _ in range(n_jobs):
+        fq, fe = focus if (focus is not None and rng.random() < 0.7) else (rng.randrange(len(queries)), rng.choice(ENTRIES))
         clients[rng.randrange(n_clients)].append(
             {
-                "q": rng.randrange(len(queries)),
+                "q": fq,
                 "d": rng.randrange(len(docs)),
-                "entry": rng.choice(ENTRIES),
+                "entry": fe,
                 "stall": rng.random() < 0.3,
                 # mostly the (wrapped) object document; sometimes JSON text or a single-use stream
                 "form": rng.choice(["obj"] * 8 + ["text", "stringio", "bytesio", "simfile"]),
@@ -140,6 +147,22 @@ def generate(seed: int, config: str, tier: str) -> Dict[str, Any]:
     knobs = {"p_sched": rng.choice([0.2, 0.4, 0.6]), "p_get": rng.choice([0.2, 0.5, 0.8]),
              "filter_caching": rng.random() < 0.7, "well_typed": rng.random() < 0.8}
     return {"property": PROPERTY, "config": config, "seed": seed, "knobs": knobs, "plan": plan}
+
+
+def _variant(rng: Any, doc: Any) -> Any:
+    d = copy.deepcopy(doc)
+    leaves = [(l, v) for l, v in gen_json.walk(d) if l and not isinstance(v, (dict, list))]
+    for _ in range(rng.randint(1, 3)):
+        if not leaves:
+            break
+        l, _v = rng.choice(leaves)
+        node = d
+        for key in l[:-1]:
+            node = node[key]
+        node[l[-1]] = rng.choice(gen_json.SCALARS)
+    if isinstance(d, dict) and d and rng.random() < 0.3:
+        del d[rng.choice(list(d))]
+    return d
 
 
 def _kind(v: Any) -> str:
